@@ -33,6 +33,7 @@ REAL_WAITPID = os.waitpid
 REAL_GETPID = os.getpid
 REAL_CONN_WAIT = bconnection.wait
 FIRST_PID = 1000
+MAIN_PID = os.getpid()
 
 
 class Hang(BaseException):
@@ -256,7 +257,7 @@ def run_real(case, tmpdir, seq):
     p.join(case.get('short', 0.02))
     STAGE[0] = 'after the timed join' 
     out['timed_join_s'] = round(time.monotonic() - t0, 3)
-    out['timed_join_ok'] = (time.monotonic() - t0) < 2.0 and p.exitcode is None and bool(p.is_alive()) \
+    out['timed_join_ok'] = (time.monotonic() - t0) < 5.0 and p.exitcode is None and bool(p.is_alive()) \
         and p in bprocess._children
     open(gate, 'w').close()
     if path[0] == 'killed':
@@ -374,6 +375,10 @@ def main():
                     out.append(dict(crash='%s: %s' % (type(exc).__name__, exc),
                                     trace=traceback.format_exc()[-800:]))
                 finally:
+                    if REAL_GETPID() != MAIN_PID:
+                        # a forked child escaped from Popen._launch (os._exit raised): it must
+                        # not go on running the driver
+                        os._exit(97)
                     signal.setitimer(signal.ITIMER_REAL, 0)
                     for p in list(bprocess._children):
                         if p._popen is not None and p._popen.returncode is None:
